@@ -182,6 +182,16 @@ func (c *compiler) assembleLine(in sourceLine) (Instruction, error) {
 	var op OpCode
 	var opMode OpMode
 	if c.config.Mode == ICWS88 {
+		if in.amode != "" {
+			if _, err := getAddressMode88(in.amode); err != nil {
+				return Instruction{}, err
+			}
+		}
+		if in.bmode != "" {
+			if _, err := getAddressMode88(in.bmode); err != nil {
+				return Instruction{}, err
+			}
+		}
 		op88, err := getOpCode88(in.op)
 		if err != nil {
 			return Instruction{}, err
